@@ -4,7 +4,6 @@ Import ListNotations. Close Scope Z_scope. Open Scope nat_scope.
 
 Fixpoint ht (t : tree) : nat := match t with Leaf => 0 | Node l _ _ _ _ r => S (Nat.max (ht l) (ht r)) end.
 Fixpoint size (t : tree) : nat := match t with Leaf => 0 | Node l _ _ _ _ r => size l + 1 + size r end.
-Fixpoint inorder (t : tree) : list Z := match t with Leaf => [] | Node l d _ _ _ r => inorder l ++ d :: inorder r end.
 Fixpoint Ok (t : tree) : Prop :=
   match t with Leaf => True | Node l _ h ls rs r => Ok l /\ Ok r /\ h = Nat.max (ht l) (ht r) /\ ls = size l /\ rs = size r end.
 Fixpoint Bal (t : tree) : Prop :=
@@ -33,15 +32,21 @@ Qed.
 Lemma taller_left_mk l d r : Ok l -> Ok r -> taller_left (mk l d r) = (ht r <? ht l).
 Proof. intros Hl Hr. unfold mk, taller_left. rewrite !ok_sh by assumption. reflexivity. Qed.
 
-Definition Good t := Ok t /\ Bal t.
+(* stored fields are right and the tree is height-balanced (the order-independent part of Good) *)
+Definition Inv t := Ok t /\ Bal t.
+(* both sub-trees have the same height *)
+Definition level (t : tree) : Prop := match t with Leaf => True | Node l _ _ _ _ r => ht l = ht r end.
 
 (* the specification of one rotation, nested repairs included *)
 Definition RotSpec (f : tree -> tree) (bound : nat) : Prop :=
-  forall l d r, Good l -> Good r -> ht (mk l d r) <= bound ->
+  forall l d r, Inv l -> Inv r -> ht (mk l d r) <= bound ->
   (ht l = S (S (ht r)) \/ ht r = S (S (ht l))) ->
   let t := f (mk l d r) in
-  Good t /\ inorder t = inorder (mk l d r) /\ size t = size (mk l d r) /\
-  (ht t = ht (mk l d r) \/ S (ht t) = ht (mk l d r)).
+  Inv t /\ inorder t = inorder (mk l d r) /\ size t = size (mk l d r) /\
+  (ht t = ht (mk l d r) \/ S (ht t) = ht (mk l d r)) /\
+  (* the height drops whenever the taller child is not level (always so after an insertion) *)
+  ((ht l = S (S (ht r)) -> ~ level l -> S (ht t) = ht (mk l d r)) /\
+   (ht r = S (S (ht l)) -> ~ level r -> S (ht t) = ht (mk l d r))).
 
 Lemma fixr_bal f l d r : Ok l -> Ok r -> ht l <= S (ht r) -> ht r <= S (ht l) ->
   fixr f (mk l d r) = mk l d r.
@@ -57,7 +62,8 @@ Proof.
   destruct (Nat.leb_spec (ht l) (S (ht r))), (Nat.leb_spec (ht r) (S (ht l))); cbn; try reflexivity; lia.
 Qed.
 
-Ltac five := refine (conj (conj _ _) (conj _ (conj _ _))).
+Ltac five := refine (conj (conj _ _) (conj _ (conj _ (conj _ _)))).
+Ltac t_lv := split; intros; rewrite ?ht_mk in *; match goal with Hlv : level _ <-> _ |- _ => try rewrite Hlv in * end; lia.
 Ltac t_in := rewrite ?inorder_mk; repeat match goal with H : inorder _ = _ |- _ => rewrite H end;
              rewrite ?inorder_mk; rewrite <- ?app_assoc; cbn [app]; rewrite <- ?app_assoc; reflexivity.
 Ltac t_sz := rewrite ?size_mk; repeat match goal with H : size _ = _ |- _ => rewrite H end; rewrite ?size_mk; lia.
@@ -81,10 +87,11 @@ Proof.
     assert (Hhy : ht y = S (Nat.max (ht yl) (ht yr))) by reflexivity.
     assert (Hiy : inorder y = inorder yl ++ yd :: inorder yr) by reflexivity.
     assert (Hsy : size y = size yl + 1 + size yr) by reflexivity.
+    assert (Hlv : level y <-> ht yl = ht yr) by (split; intro H; exact H).
     clearbody y.
     destruct (Nat.ltb_spec (ht yr) (ht yl)) as [Hy|Hy].
     + rewrite fixr_bal by (assumption || lia).
-      cbv zeta. five; [t_ok | t_bal | t_in | t_sz | t_ht].
+      cbv zeta. five; [t_ok | t_bal | t_in | t_sz | t_ht | t_lv].
     + destruct yr as [|xl xd xh xls xrs xr]; [simpl in *; lia|].
       destruct Hoyr as (Hoxl & Hoxr & -> & -> & ->).
       destruct Hbyr as (Hbxl & Hbxr & Hbx1 & Hbx2).
@@ -92,12 +99,12 @@ Proof.
       rewrite (fixr_bal f xr d r) by (assumption || lia).
       destruct (Nat.leb_spec (ht yl) (S (ht xl))) as [Hc|Hc].
       * rewrite (fixr_bal f yl yd xl) by (assumption || lia).
-        five; [t_ok | t_bal | t_in | t_sz | t_ht].
+        five; [t_ok | t_bal | t_in | t_sz | t_ht | t_lv].
       * rewrite (fixr_unbal f yl yd xl) by (assumption || lia).
-        destruct (IH yl yd xl (conj Hoyl Hbyl) (conj Hoxl Hbxl)) as ((Hok' & Hbal') & Hin' & Hsz' & Hht'); [rewrite ht_mk; lia | lia |].
+        destruct (IH yl yd xl (conj Hoyl Hbyl) (conj Hoxl Hbxl)) as ((Hok' & Hbal') & Hin' & Hsz' & Hht' & _); [rewrite ht_mk; lia | lia |].
         set (y2 := f (mk yl yd xl)) in *. clearbody y2.
         rewrite !ht_mk in Hht'.
-        five; [t_ok | t_bal | t_in | t_sz | t_ht].
+        five; [t_ok | t_bal | t_in | t_sz | t_ht | t_lv].
   - destruct Hd as [Hd|Hd]; [lia|].
     destruct r as [|yl yd yh yls yrs yr]; [simpl in Hd; lia|].
     destruct Hor as (Hoyl & Hoyr & -> & -> & ->).
@@ -107,6 +114,7 @@ Proof.
     assert (Hhy : ht y = S (Nat.max (ht yl) (ht yr))) by reflexivity.
     assert (Hiy : inorder y = inorder yl ++ yd :: inorder yr) by reflexivity.
     assert (Hsy : size y = size yl + 1 + size yr) by reflexivity.
+    assert (Hlv : level y <-> ht yl = ht yr) by (split; intro H; exact H).
     clearbody y.
     destruct (Nat.ltb_spec (ht yr) (ht yl)) as [Hy|Hy].
     + destruct yl as [|xl xd xh xls xrs xr]; [simpl in *; lia|].
@@ -115,9 +123,9 @@ Proof.
       cbn [ht inorder size] in *.
       rewrite (fixr_bal f l d xl) by (assumption || lia).
       rewrite (fixr_bal f xr yd yr) by (assumption || lia).
-      five; [t_ok | t_bal | t_in | t_sz | t_ht].
+      five; [t_ok | t_bal | t_in | t_sz | t_ht | t_lv].
     + rewrite fixr_bal by (assumption || lia).
-      five; [t_ok | t_bal | t_in | t_sz | t_ht].
+      five; [t_ok | t_bal | t_in | t_sz | t_ht | t_lv].
 Qed.
 
 Theorem rot_spec : forall fuel, RotSpec (rot fuel) fuel.
